@@ -3,6 +3,7 @@
 #include "model/regspace.hpp"
 #include "support/ufw.hpp"
 #include <cmath>
+#include <functional>
 #include <ufw/register-table.h>
 
 namespace rg {
@@ -55,10 +56,12 @@ extern "C" inline RegisterAccess vp_cb_read(const RegisterArea *a, RegisterAtom 
     memcpy(dst, s->mem + off, n * sizeof(RegisterAtom));   // exact-size block: an out-of-range request is an ASan report
     return rv;
 }
+inline std::function<void(RegisterArea *)> &cb_write_hook() { static std::function<void(RegisterArea *)> f; return f; }
 extern "C" inline RegisterAccess vp_cb_write(RegisterArea *a, const RegisterAtom *src, RegisterOffset off, RegisterOffset n) {
     RegisterAccess rv = REG_ACCESS_RESULT_INIT;
     CbStore *s = find_store(a);
     s->writes++;
+    if (cb_write_hook()) cb_write_hook()(a);    // a driver that uses the table itself while it is being written to (also: while register_init loads defaults)
     memcpy(s->mem + off, src, n * sizeof(RegisterAtom));
     return rv;
 }
